@@ -72,20 +72,47 @@ func (z *Decimal) GobDecode(buf []byte) error {
 		return fmt.Errorf("Decimal.GobDecode: encoding version %d not supported", buf[0])
 	}
 
+	if len(buf) < 6 {
+		return fmt.Errorf("Decimal.GobDecode: buffer too small (%d bytes)", len(buf))
+	}
+
 	oldPrec := z.prec
 	oldMode := z.mode
 
 	b := buf[1]
-	z.mode = RoundingMode((b >> 5) & 7)
-	z.acc = Accuracy((b>>3)&3) - 1
-	z.form = form((b >> 1) & 3)
-	z.neg = b&1 != 0
-	z.prec = binary.BigEndian.Uint32(buf[2:])
-
-	if z.form == finite {
-		z.exp = int32(binary.BigEndian.Uint32(buf[6:]))
-		z.mant = z.mant.setBytes(buf[10:])
+	mode := RoundingMode((b >> 5) & 7)
+	acc := Accuracy((b>>3)&3) - 1
+	f := form((b >> 1) & 3)
+	prec := binary.BigEndian.Uint32(buf[2:])
+	if mode > ToPositiveInf || acc > Above || f > inf {
+		return fmt.Errorf("Decimal.GobDecode: invalid mode, accuracy or form")
 	}
+
+	if f == finite {
+		if len(buf) < 10 {
+			return fmt.Errorf("Decimal.GobDecode: buffer too small (%d bytes)", len(buf))
+		}
+		// decode into a fresh mantissa: z must stay valid if the data is rejected
+		mant := dec(nil).setBytes(buf[10:])
+		if len(mant) == 0 || mant[len(mant)-1] < _DB/10 {
+			return fmt.Errorf("Decimal.GobDecode: mantissa is not normalized")
+		}
+		for _, w := range mant {
+			if w >= _DB {
+				return fmt.Errorf("Decimal.GobDecode: invalid mantissa word")
+			}
+		}
+		if uint64(len(mant))*_DW-uint64(mant.trailingZeroDigits()) > uint64(prec) {
+			return fmt.Errorf("Decimal.GobDecode: mantissa longer than precision %d", prec)
+		}
+		z.exp = int32(binary.BigEndian.Uint32(buf[6:]))
+		z.mant = mant
+	}
+	z.mode = mode
+	z.acc = acc
+	z.form = f
+	z.neg = b&1 != 0
+	z.prec = prec
 
 	if oldPrec != 0 {
 		z.mode = oldMode
